@@ -412,6 +412,15 @@ get_common_reg_type (OrcX86Insn *xinsn)
   return ORC_X86_NO_PREFIX;
 }
 
+/* A general purpose operand is 64 bits wide exactly when the encoder sets
+ * REX.W */
+static const char *
+get_gp_regname (OrcCompiler *p, int reg, int size)
+{
+  if (size >= 8 && p->is_64bit) return orc_x86_get_regname_64 (reg);
+  return orc_x86_get_regname (reg);
+}
+
 static void
 /* Output assembler code in AT&T style (opcode src, dest)*/
 orc_x86_insn_output_asm (OrcCompiler *p, OrcX86Insn *xinsn)
@@ -565,7 +574,7 @@ orc_x86_insn_output_asm (OrcCompiler *p, OrcX86Insn *xinsn)
       src_op[0] = 0;
       break;
     case ORC_X86_INSN_TYPE_REG_REGM:
-      sprintf(src_op, "%%%s, ", orc_x86_get_regname (operand1));
+      sprintf(src_op, "%%%s, ", get_gp_regname (p, operand1, xinsn->size));
       break;
     case ORC_X86_INSN_TYPE_REG8_REGM:
       sprintf(src_op, "%%%s, ", orc_x86_get_regname_8 (operand1));
@@ -714,7 +723,11 @@ orc_x86_insn_output_asm (OrcCompiler *p, OrcX86Insn *xinsn)
     case ORC_X86_INSN_TYPE_REG_REGM:
     case ORC_X86_INSN_TYPE_IMM8_MMX_REG_REV:
       if (xinsn->type == ORC_X86_RM_REG) {
-        sprintf(dst_op, "%%%s", orc_x86_get_regname (xinsn->dest));
+        if (xinsn->opcode->type == ORC_X86_INSN_TYPE_REG_REGM) {
+          sprintf(dst_op, "%%%s", get_gp_regname (p, xinsn->dest, xinsn->size));
+        } else {
+          sprintf(dst_op, "%%%s", orc_x86_get_regname (xinsn->dest));
+        }
       } else if (xinsn->type == ORC_X86_RM_MEMOFFSET) {
         sprintf(dst_op, "%d(%%%s)", xinsn->offset,
             orc_x86_get_regname_ptr (p, xinsn->dest));
